@@ -29,7 +29,7 @@ h_read_header(void)
 {
 	struct http_cookie * H = h_mk_cookie();
 	IN(int, status);
-	size_t wlen, hepos0;
+	size_t wlen, hepos0, slack;
 	uint8_t * win;
 	struct h_obs o;
 	int rc;
@@ -41,6 +41,7 @@ h_read_header(void)
 	win = H->R->buf + H->R->bufpos;
 	wlen = H->R->datalen - H->R->bufpos;
 	hepos0 = H->hepos;
+	slack = H->R->buflen - H->R->datalen;
 	if (status == 0) {
 		__CPROVER_assume(hepos0 == 0 || (hepos0 <= wlen && hepos0 + 3 <= wlen));
 		__CPROVER_assume(!(g_http_i < hepos0) || !(win[g_http_i] == '\r' && win[g_http_i + 1] == '\n' &&
@@ -51,7 +52,7 @@ h_read_header(void)
 	rc = callback_read_header(H, status);
 
 	H_CHECK_C08(o, rc);
-	VCOVER(H_ENDED(o) && status == 0 && hepos0 > 0 && wlen == H->R->buflen - H->R->bufpos);	/* terminator found (or wait failed); window ends at the end of the object */
+	VCOVER(H_ENDED(o) && status == 0 && hepos0 > 0 && slack == 0);	/* terminator found (or wait failed); window ends at the end of the object */
 	VCOVER(!H_ENDED(o) && wlen >= 7 && hepos0 == 2);		/* keeps waiting, scan advanced */
 	VCOVER(!H_ENDED(o) && wlen == 0);
 	VCOVER(!H_ENDED(o) && wlen == 3);
